@@ -219,4 +219,34 @@ PROPS = {
         "assumptions": ["u32 overflow of the length formulas needs >= 2^28 records (a 4 GiB message): outside the modelled domain",
                         "libccp reads the update-fields count as one signed byte and accepts at most 222 updates: beyond that it refuses the message (observed, modelled)"],
     },
+    "C17": {
+        "coq": "Properties/C17.v",
+        "pre": lambda: __import__("subprocess").run([__import__("sys").executable, __import__("os").path.join(__import__("os").path.dirname(__import__("os").path.abspath(__file__)), "gen_uidops.py")], check=True, stdout=__import__("subprocess").DEVNULL),
+        "level_text": "PARTIAL. C17_unique proves for every number of threads, compilations and every interleaving of their atomic operations that the uids handed out are "
+                      "pairwise distinct; the operation list it is about (gen/UidOps.v) is regenerated on every run from the body of get_next_uid! by a small translator, and the "
+                      "proof term contains eq_refl : is_atomic uid_ops = true, which stops type-checking if the macro is no longer a single fetch_add. Hardware atomicity of "
+                      "AtomicU32::fetch_add is trusted. The stress stream compiles from 1..16 threads concurrently and checks all uids pairwise distinct, clones equal, per-thread increasing.",
+        "level_note": "Coq kernel; no axioms; translator lib/gen_uidops.py (regular expressions over the macro body, the static's declaration and Scope::new); atomicity and memory ordering of the hardware/Rust atomic are trusted.",
+        "streams": ["c17"],
+        "rule": "N in {1,2,4,8,16} threads x 2000 compilations each (thorough: up to 50000) of two valid and two invalid sources, started together behind a barrier, two repetitions; "
+                "non-trivial = a run with at least two threads; distinct by (threads, m, repetition)",
+        "nontrivial": lambda r: "threads=1 " not in r["arg"],
+        "search_with_thorough": True,
+        "assumptions": ["AtomicU32::fetch_add is atomic (hardware / Rust memory model)"],
+    },
+    "C19": {
+        "coq": "Properties/C19.v",
+        "level_text": "PARTIAL. C19_fifo_exactly_once / C19_per_sender_prefix prove, over an abstract reliable FIFO, that for every interleaving of sends and receives the received datagrams "
+                      "followed by the queued ones are exactly the sent ones in order (intact, once, boundaries kept); C19_nonblocking_empty_is_error, C19_oversized_is_error, C19_dead_handle_is_error. "
+                      "That crossbeam's channel and the kernel's Unix datagram queue are such FIFOs cannot be exhibited by the model: the stress stream runs real threads and sockets "
+                      "(1-4 senders, bursts of thousands, sizes 13..1024, per-sender sequence numbers and checksums, sender address check, non-blocking empty receive, oversized datagrams, dead handle).",
+        "level_note": "Coq kernel; no axioms; the FIFO hypothesis (crossbeam unbounded channel, AF_UNIX SOCK_DGRAM) is assumed by the model and observed by the run.",
+        "streams": ["c19"],
+        "rule": "channel transport: 1-4 concurrent senders x 5000/n datagrams (thorough 100000/n), portus-side send burst, non-blocking empty receive, oversized datagrams of 1025/2048/70000 bytes, "
+                "send through a handle whose backend was dropped; Unix transport: 1-3 sender sockets x 3000/n datagrams with sender-address check, non-blocking empty receive; "
+                "non-trivial = every scenario (each is distinct)",
+        "nontrivial": lambda r: True,
+        "assumptions": ["crossbeam::channel::unbounded and the kernel's Unix datagram sockets are reliable FIFOs per sender",
+                        "a full Unix socket queue makes send fail (kernel flow control); the sender retries: not counted as loss"],
+    },
 }
